@@ -426,6 +426,13 @@ m("cred-delete-keeps-cache-change-on-failed-save", ["C18"],
 		cfg.authsCache[serverAddress] = old
 		return err""", """		_ = old
 		return err"""))
+m("oci-delete-forgets-references-on-failed-save", ["C08"],
+  ("content/oci/oci.go", """			for reference, desc := range untagged {
+				if tagErr := s.tagResolver.Tag(ctx, desc, reference); tagErr != nil {
+					return nil, errors.Join(err, tagErr)
+				}
+			}
+			return nil, err""", """			return nil, err"""))
 # ---- auth / retry (C16, C17) ----
 m("auth-cache-key-without-host", ["C16"],
   ("registry/remote/auth/cache.go", """	entry, ok := cc.cache.Load(registry)
